@@ -362,9 +362,10 @@ def run_check(pid: str, tier: str, seed: int, only: str | None = None) -> int:
         "wall_s": round(wall, 2),
         "violations": 1 if failure else 0,
     }
-    (VERIF / "evidence").mkdir(exist_ok=True)
+    evdir = Path(os.environ.get("VERIF_EVIDENCE_DIR", VERIF / "evidence"))
+    evdir.mkdir(exist_ok=True, parents=True)
     if not only:
-        (VERIF / "evidence" / f"{pid}.json").write_text(json.dumps(evidence, indent=1, default=repr) + "\n")
+        (evdir / f"{pid}.json").write_text(json.dumps(evidence, indent=1, default=repr) + "\n")
 
     for name, m in per_sub.items():
         print(f"[{pid}/{name}] evaluations={m['evaluations']} distinct_nontrivial={m['distinct']} "
@@ -375,7 +376,7 @@ def run_check(pid: str, tier: str, seed: int, only: str | None = None) -> int:
         return 2
 
     if failure is not None:
-        rdir = VERIF / "replays" / pid
+        rdir = Path(os.environ.get("VERIF_REPLAY_DIR", VERIF / "replays")) / pid
         rdir.mkdir(parents=True, exist_ok=True)
         payload = {"property": pid, "sub": failure["sub"], "case": failure["case"],
                    "kind": failure["kind"], "message": failure["message"][:4000], "seed": seed, "tier": tier}
